@@ -95,6 +95,20 @@ TraceInsert ==
                   ELSE IF old.key # e.k THEN Count2("inserts", "free_other_key")
                   ELSE Count2("inserts", "free")
 
+\* After every search the harness reads the table's counter of filled slots and its fill indicator, and says how many
+\* slots received an insert since the table was last emptied (all slots, `untracked` of them outside the tracked ones:
+\* the model's `bulk`).  "The fill indicator equals the fraction of occupied slots": PropertyView; the counter: CodeView.
+TraceFill ==
+    /\ IsEvent("fill")
+    /\ LET e == Rec[l]
+       IN  /\ ViolAt(e.filled = Filled(slot) + e.untracked, "TRACE", l, "filled-slots-of-the-harness-and-of-the-model-differ",
+                     [harness |-> e.filled, untracked |-> e.untracked, model |-> Filled(slot)])
+           /\ Viol(PermilleOK(e.pm, slot, e.untracked, N(size)), "fill-indicator-after-a-search",
+                   [permille |-> e.pm, filled |-> e.filled, slots |-> N(size)])
+           /\ Drift(e.occ = e.filled, "occupied-counter", [occupied |-> e.occ, filled |-> e.filled])
+    /\ UNCHANGED <<slot, search, occupied, size, bulk, st, ret, poss>>
+    /\ Count("fills")
+
 \* a probe whose answer is the CodeView's: the action Probe itself
 TraceProbe ==
     /\ IsEvent("probe")
@@ -135,7 +149,7 @@ AdoptProbe ==
            /\ UNCHANGED <<search, occupied, size, bulk, st>>
            /\ Count2("probes", "adopted")
 
-Zero == [tables |-> 0, resets |-> 0, newsearches |-> 0, inserts |-> 0, forced |-> 0, forbidden |-> 0, free |-> 0,
+Zero == [fills |-> 0, tables |-> 0, resets |-> 0, newsearches |-> 0, inserts |-> 0, forced |-> 0, forbidden |-> 0, free |-> 0,
          free_other_key |-> 0, probes |-> 0, hits |-> 0, hits_earlier_search |-> 0, misses_other_key |-> 0, adopted |-> 0]
 
 TraceInit ==
@@ -148,7 +162,7 @@ TraceFinish ==
     /\ Stat("tablecounts", acc)
     /\ UNCHANGED <<slot, search, occupied, size, bulk, st, ret, poss, acc>>
 
-TraceNext == TraceNew \/ TraceReset \/ TraceNewSearch \/ TraceInsert \/ TraceProbe \/ AdoptProbe \/ TraceFinish
+TraceNext == TraceNew \/ TraceReset \/ TraceNewSearch \/ TraceInsert \/ TraceProbe \/ AdoptProbe \/ TraceFill \/ TraceFinish
 TraceSpec == TraceInit /\ [][TraceNext]_tvars
 
 \* the CodeView invariants of TransTable hold along the trace (the model is TransTable's own)
